@@ -8,7 +8,11 @@
      %Y -> ([0-9]{4}), %m %d %H %M %S -> ([0-9]{2}), %f -> ([0-9]{6}), %s -> ([0-9]{10}),
      %z -> (Z|\+[0-9]{4}|-[0-9]{4}),
    compiled as ^...$ since the fix: commit 2b44fe1 (before it: without anchors, see
-   decode_unanchored). The local time zone enters as the offset `loff` that time.Date applies. *)
+   decode_unanchored). Since the second fix (re-encode comparison) Decode ends with
+   `return p.Encode(format) == v` (before it: decode_lax).
+   The local time zone enters as a pair of functions `lzone` (the offset time.Date subtracts for a
+   wall-clock reading; the offset in force at an instant); a fixed-offset zone `loff` is the
+   constant pair (decode loff = decode_lz (fixed_lz loff)). Real zones: Model/C26_Zone.v. *)
 From Coq Require Import List ZArith Bool.
 Require Import MTX.Lib.Civil.
 Import ListNotations.
@@ -231,12 +235,57 @@ Definition decode_caps (loff : Z) (caps : list (tok * list Z)) : list Z * Z * Z 
 Definition decode_toks (loff : Z) (ts : list tok) (v : list Z) : option (list Z * Z * Z) :=
   match mtch true ts v with Some caps => Some (decode_caps loff caps) | None => None end.
 
-(* Path.Decode(format, v) of the current (anchored) code *)
-Definition decode (loff : Z) (f v : list Z) : option (list Z * Z * Z) := decode_toks loff (tokenize f) v.
+(* Path.Decode before the re-encode comparison (anchored pattern, fixed local offset) *)
+Definition decode_lax (loff : Z) (f v : list Z) : option (list Z * Z * Z) := decode_toks loff (tokenize f) v.
 
 (* Path.Decode before fix 2b44fe1 *)
 Definition decode_unanchored (loff : Z) (f v : list Z) : option (list Z * Z * Z) :=
   match search (tokenize f) v with Some caps => Some (decode_caps loff caps) | None => None end.
+
+(* The local time zone (time.Local) as the two functions the code uses:
+     lz_date w : the offset time.Date subtracts from the wall-clock reading w (seconds, the civil
+                 fields taken as if they were UTC) - for a reading that exists once, the offset in
+                 force then; for a skipped or repeated reading, what time.Date's lookup yields;
+     lz_at u   : the offset in force at Unix time u (what Time.Zone / Year() ... Second() use). *)
+Record lzone := mkLZ { lz_date : Z -> Z; lz_at : Z -> Z }.
+Definition fixed_lz (o : Z) : lzone := mkLZ (fun _ => o) (fun _ => o).
+
+(* the wall-clock reading time.Date is called with (fields normalised, as if UTC) *)
+Definition caps_wall (caps : list (tok * list Z)) : Z :=
+  date_unix (num_of TY caps 0) (num_of Tmo caps 1) (num_of Td caps 1)
+            (num_of TH caps 0) (num_of TMi caps 0) (num_of TS caps 0) 0.
+
+Definition decode_caps_lz (L : lzone) (caps : list (tok * list Z)) : list Z * Z * Z :=
+  decode_caps (lz_date L (caps_wall caps)) caps.
+
+(* offset of the decoded Start in its Location: the fixed zone of %z, else time.Local
+   (time.Date(..., loc) and time.Unix(...).In(loc)) *)
+Definition start_off (L : lzone) (caps : list (tok * list Z)) (u : Z) : Z :=
+  match cap_of Tz caps with Some z => zone_off z | None => lz_at L u end.
+
+Fixpoint bytes_eqb (a b : list Z) : bool :=
+  match a, b with
+  | [], [] => true
+  | x :: a', y :: b' => (x =? y) && bytes_eqb a' b'
+  | _, _ => false
+  end.
+
+(* Path.Decode(format, v) of the current code: anchored match, fields -> Start, and the name is
+   recognised only if Encode writes it back for the decoded path and start *)
+Definition decode_lz (L : lzone) (f v : list Z) : option (list Z * Z * Z) :=
+  match mtch true (tokenize f) v with
+  | Some caps =>
+      let '(p, u, n) := decode_caps_lz L caps in
+      if bytes_eqb (encode_go f p (mkI u n (start_off L caps u))) v then Some (p, u, n) else None
+  | None => None
+  end.
+
+(* the same without the final comparison *)
+Definition decode_lax_lz (L : lzone) (f v : list Z) : option (list Z * Z * Z) :=
+  match mtch true (tokenize f) v with Some caps => Some (decode_caps_lz L caps) | None => None end.
+
+(* fixed-offset local zone *)
+Definition decode (loff : Z) (f v : list Z) : option (list Z * Z * Z) := decode_lz (fixed_lz loff) f v.
 
 (* ------------------------------------------------------------------ well-formedness *)
 
@@ -288,15 +337,25 @@ Definition cap_shape (c : tok * list Z) : bool :=
 (* path names without newline and without '%' (every valid path name is one) *)
 Definition name_ok (p : list Z) : bool := forallb (fun c => negb (c =? 10) && negb (c =? 37)) p.
 
-(* the instant can be written in the fixed-width groups the decoder expects, and the zone
-   used by Decode (from %z, or else the local offset loff) is the one Encode used *)
-Definition encodable (loff : Z) (ts : list tok) (t : instant) : bool :=
+(* the instant can be written in the fixed-width groups the decoder expects (4-digit year, 10-digit
+   Unix time; with %z an offset of whole minutes below 100 h) *)
+Definition enc_ranges (ts : list tok) (t : instant) : bool :=
   (0 <=? i_ns t) && (i_ns t <? 1000000000)
   && (negb (has TY ts) || ((1000 <=? c_year (civil_of_unix (i_unix t) (i_off t)))
                            && (c_year (civil_of_unix (i_unix t) (i_off t)) <=? 9999)))
   && (negb (has Ts ts) || ((1000000000 <=? i_unix t) && (i_unix t <? 10000000000)))
-  && (if has Tz ts then (i_off t mod 60 =? 0) && (Z.abs (i_off t) <? 360000) else
-      has Ts ts || (i_off t =? loff)).
+  && (negb (has Tz ts) || ((i_off t mod 60 =? 0) && (Z.abs (i_off t) <? 360000))).
+
+(* ... and, without %z, the instant is held in the local zone (the recorder's case: the offset in
+   force locally at that instant is the one Encode used) and, without %s as well, time.Date maps
+   its wall-clock reading back to that offset *)
+Definition encodable_lz (L : lzone) (ts : list tok) (t : instant) : bool :=
+  enc_ranges ts t
+  && (has Tz ts
+      || ((lz_at L (i_unix t) =? i_off t)
+          && (has Ts ts || (lz_date L (i_unix t + i_off t) =? i_off t)))).
+
+Definition encodable (loff : Z) (ts : list tok) (t : instant) : bool := encodable_lz (fixed_lz loff) ts t.
 
 (* Start as Decode returns it for a name written by Encode *)
 Definition trunc_start (ts : list tok) (t : instant) : Z * Z :=
